@@ -94,7 +94,34 @@ func (c *Ctx) checkAssert(rule string, dt *core.DynTypes, fn *ssa.Function, ta *
 	}
 	// exceptions
 	if why, ok := c.exceptTypeParam(fn, ta); ok {
-		c.R.Except(rule, k, pos, what, why)
+		// the exception covers WHICH type the operand has; it cannot cover the nil interface, for which every
+		// assertion fails whatever the type argument is (StepData = any included)
+		nonNil := !ts.MayNil && (!ts.Top || ts.TopNonNil)
+		for _, cond := range core.CondsAt(b) {
+			if x, neq, ok := core.NilCmp(cond.V); ok && neq == cond.True && (x == ta.X || c.M.ValPath(x) == c.M.ValPath(ta.X)) {
+				nonNil = true
+			}
+		}
+		// or: the operand passed a schema's Validate (no schema kind accepts the nil interface: R-REFLECT / R-NILGUARD
+		// decide that for every Validate in the package)
+		for _, cond := range core.CondsAt(b) {
+			x, neq, ok := core.NilCmp(cond.V)
+			if !ok || neq == cond.True {
+				continue
+			}
+			if vc, isCall := core.Unwrap(x).(*ssa.Call); isCall && c.calledMethodName(vc) == "Validate" {
+				for _, a := range vc.Call.Args {
+					if a == ta.X {
+						nonNil = true
+					}
+				}
+			}
+		}
+		if nonNil {
+			c.R.Except(rule, k, pos, what, why)
+		} else {
+			c.R.Bad(rule, k, pos, what, "the operand may be the nil interface (provenance "+ts.String()+"): asserting nil to a type parameter panics whatever the type argument is - a step whose data is nil (no initializer, or one returning nil) makes every signal panic")
+		}
 		return
 	}
 	if why, ok := c.exceptDuck(fn, ta); ok {
